@@ -114,7 +114,7 @@ class Batch:
         self.meta.append((family, src, end, toks, exc, base))
         return len(self.cases)
 
-    def data_text(self, digest_pairs=()):
+    def data_text(self, digest_pairs=(), log_actions=False):
         out = ['CasePacked == <<']
         out.append(',\n'.join('<<%s>>' % ','.join('"%s"' % c[k:k + CHUNK] for k in range(0, len(c), CHUNK))
                               for c in self.cases))
@@ -125,9 +125,11 @@ class Batch:
         out.append('CaseDigests == <<')
         out.append(',\n'.join('<<"%s","%s","%s">>' % tuple(p) for p in digest_pairs))
         out.append('>>')
+        out.append('CaseLogActions == %s' % ('TRUE' if log_actions else 'FALSE'))
         return '\n'.join(out) + '\n'
 
-    def write(self, directory, digest_pairs=(), root='C12Run', extends='LexerTrace', cfg='LexerTrace.cfg'):
+    def write(self, directory, digest_pairs=(), root='C12Run', extends='LexerTrace', cfg='LexerTrace.cfg',
+              log_actions=False):
         """Write LexerData.tla (copy of spec/LexerData.tla with this batch as its data section), a root
         module `root` that EXTENDS `extends`, and its cfg (copy of spec/<cfg>) into `directory`."""
         import os
@@ -136,7 +138,7 @@ class Batch:
         a = tmpl.index(BEGIN) + len(BEGIN)
         b = tmpl.index(END)
         with open(os.path.join(directory, 'LexerData.tla'), 'w') as f:
-            f.write(tmpl[:a] + self.data_text(digest_pairs) + tmpl[b:])
+            f.write(tmpl[:a] + self.data_text(digest_pairs, log_actions) + tmpl[b:])
         with open(os.path.join(directory, root + '.tla'), 'w') as f:
             f.write('---- MODULE %s ----\nEXTENDS %s\n====\n' % (root, extends))
         with open(os.path.join(common.SPEC, cfg)) as f:
